@@ -203,6 +203,13 @@ func LibGoros(gs []Goro) []Goro {
 	return out
 }
 
+// DeadPollEvery is how long a harness wait stays silent before it attempts a
+// dead-state proof; DeadInterval is the distance between the two censuses.
+var (
+	DeadPollEvery = 2 * time.Second
+	DeadInterval  = 250 * time.Millisecond
+)
+
 // DeadState is the result of ProveDead.
 type DeadState struct {
 	Dead      bool
